@@ -98,7 +98,8 @@ def references():
     return {
         'matching': [('sjoin', C(' '), marr)],
         'size': [CALL(S('len'), [PA]), BIN('Sub', A(M, 'num_students'), CALL(A(marr, 'count'), [C('0')])), ('sum', ((b, TRUE),), C(1)),
-                 ('sum', ((k0, CMP('NotEq', I(marr, k0), C('0'))),), C(1)), CALL(S('len'), [('comp', ((k0, CMP('NotEq', I(marr, k0), C('0'))),), k0)])],
+                 ('sum', ((k0, CMP('NotEq', I(marr, k0), C('0'))),), C(1)), CALL(S('len'), [('comp', ((k0, CMP('NotEq', I(marr, k0), C('0'))),), k0)]),
+                 ('distinct', ((b, TRUE),), A(b, 'student_index'))],
         'cost': [('tuple', (ref_sum('rank_student'), ref_sum('rank_lecturer', guard_attr='rank_lecturer')))],
         'cost_sq': [('tuple', (ref_sum('rank_student', True), ref_sum('rank_lecturer', True, 'rank_lecturer')))],
         'degree': [('max0', ((b, TRUE),), A(b, 'rank_student'))],
@@ -324,7 +325,7 @@ def check_stat(rep, repo, f, label, c, refs, pa_c):
             return
         bad = closed(c)
         if bad is not None:
-            rep.inconclusive(rule, f.where, 'the profile line is inside the aggregate algebra', got=bad)
+            rep.inconclusive(rule, f.where, 'the profile line is inside the aggregate algebra', got=bad + ' | ' + show(c)[:700])
             return
         rep.fail(rule, f.where, "profile: '< ' + one counter per rank 1..max rank, each followed by a blank, + '>' ; counter r-1 = number of matched pairs of student rank r",
                  got=show(c)[:300], want=show(wants[0])[:300], construct='profile line')
